@@ -11,7 +11,7 @@ class TooBig(BaseException):
     pass
 
 
-def run(sc, max_events=1500):
+def run(sc, max_events=4000):
     sim = vt.Sim(seed=sc.get("seed", 0))
     _log = sim.log
 
@@ -52,6 +52,23 @@ def run(sc, max_events=1500):
         cbs[k] = mk(k)
         subs[k] = mks(k)
     t0 = sim.now_us
+    try:
+        _drive(sim, n, ecu, sc, t0, add, cbs, subs)
+    except TooBig:
+        sim.log = _log
+        sim.log({"ev": "spin", "node": "A"})      # the ECU keeps firing callbacks without letting time pass
+    sim.log = _log
+    sim.log({"ev": "end", "node": "A"})
+    tr_scripts = [None] * ncb
+    for k in range(1, ncb + 1):
+        s = scripts.get(k, {"ret": False, "ops": []})
+        tr_scripts[k - 1] = {"ret": bool(s["ret"]), "ops": [dict(o, delta=o.get("delta", 0)) for o in s["ops"]]}
+    ev = [e for e in sim.trace]
+    return {"cfg": {"A": {"x": 0}}, "ev": ev, "expect": {"x": 0}, "scripts": tr_scripts, "slack": sc.get("slack", 0),
+            "meta": {"scenario": sc}}, sim
+
+
+def _drive(sim, n, ecu, sc, t0, add, cbs, subs):
     for o in sorted(sc["ops"], key=lambda o: o["t"]):
         if t0 + o["t"] > sim.now_us:
             sim.run(t0 + o["t"] - sim.now_us)
@@ -66,11 +83,3 @@ def run(sc, max_events=1500):
         elif o["op"] == "msg":
             sim.inject(n, 0x18FEF120, [1, 2, 3, 4, 5, 6, 7, 8])
     sim.run(sc.get("dur", 1_000_000))
-    sim.log({"ev": "end", "node": "A"})
-    tr_scripts = [None] * ncb
-    for k in range(1, ncb + 1):
-        s = scripts.get(k, {"ret": False, "ops": []})
-        tr_scripts[k - 1] = {"ret": bool(s["ret"]), "ops": [dict(o, delta=o.get("delta", 0)) for o in s["ops"]]}
-    ev = [e for e in sim.trace]
-    return {"cfg": {"A": {"x": 0}}, "ev": ev, "expect": {"x": 0}, "scripts": tr_scripts, "slack": sc.get("slack", 0),
-            "meta": {"scenario": sc}}, sim
